@@ -190,7 +190,7 @@ PROPS = {
                         "verdict independence is argued from the seed-free residual/weight specifications; an Err-characterisation of verify is not proved"],
     },
     "C13": {
-        "units": ["prove", "nonce", "transcripts"],
+        "units": ["prove", "prove_msg", "nonce", "transcripts"],
         "design_ref": "DESIGN.md section 7, C13",
         "technique": "contract-based deductive verification (Verus): ghost-state model of the transcript RNG; provenance of every nonce as loop invariants / tagged assertions on the real prove_with_rng; random_not_zero verified against its rejection loop",
         "claim": "Proved on the real prover: without a recovery seed, alpha_k, every round's dL_k and dR_k, d_k, eta_k, and always r and s, are successive first-nonzero draws "
@@ -216,7 +216,7 @@ PROPS = {
     },
     "C01": {
         "alias_tags": {"verify_rel": ["C02"], "verify": ["C04", "C05"], "prove": ["C04", "C06"], "transcripts": ["C04"]},
-        "units": ["prove", "verify", "verify_rel", "transcripts", "ctors", "commit"],
+        "units": ["prove", "prove_msg", "verify", "verify_rel", "transcripts", "ctors", "commit"],
         "design_ref": "DESIGN.md section 7, C01",
         "technique": "contract-based deductive verification (Verus): prover totality on valid witnesses, output shape agreement with the verifier's shape checks, shared padding contract; the algebraic completeness of the folding argument is explicitly undecided",
         "claim": "Decided part: for every statement built through the validating constructors and every valid witness, prove_with_rng returns a proof unless the transcript rejects "
@@ -224,9 +224,8 @@ PROPS = {
                  "all bit lengths, aggregation factors <= capacity, extension degrees, values (0, 2^n-1, value == promise included), seeded or not, any RNG; the proof it returns has "
                  "li.len() == ri.len() == log2(n*m) and d1.len() == degree, exactly what the verifier's shape checks (proved in unit verify) demand, and both sides compute the same "
                  "padding for every capacity >= m; prover and verifier derive their challenges from the same specified log (C04 obligations) and the verifier evaluates exactly "
-                 "the specified equation (C02 obligations - necessary for completeness, so their failure is reported under C01 too). UNDECIDED, stated as such: that the messages produced by the folding loop satisfy the verifier's equation (algebraic "
-                 "completeness of the weighted-inner-product argument); a change that only breaks the folding algebra is not detected by the deductive check.",
-        "assumptions": ["algebraic completeness of the folding rounds is not proved (weeks of work; named, not approximated)",
+                 "the specified equation (C02 obligations - necessary for completeness, so their failure is reported under C01 too). Unit prove_msg pins every scalar and point the prover computes to the honest-prover specification spec/spec_prove_msg.rs (postcondition C01.prove_messages_are_honest, for all sizes and round counts): the bit decomposition of value - promise (a_L = bits, a_R = bits - 1), A = <a_L,a_R interleaved, zero-padded | precomputed table> + <alpha | G'>, the d vector in closed form z^(2(j+1)) 2^i, the inner-product inputs a_L - z and a_R + d_q y^(nm-q) + z, and per folding round the weighted inner products c_L, c_R, the messages L_t, R_t as multiscalar expressions over the t-th folded state, the folded vectors a', b', G', H' (recursion pst/fold_st), then A1, B, r1, s1 (and d1, C09) - so a change of the prover's algebra fails a named obligation. UNDECIDED, stated as such: the pure-algebra theorem that this specified message sequence satisfies the specified verification equation (batch_residual == identity), i.e. completeness of the weighted-inner-product argument as mathematics; both sides of that theorem are now specifications the code is proved to implement, the theorem itself is not proved.",
+        "assumptions": ["the theorem 'prover_msgs_ok(...) implies batch_residual(...) == identity' (completeness of the weighted-inner-product argument over the abstract field/group) is not proved; prover and verifier are each proved against their side of it",
                         "'for whatever RNG' holds up to the transcript-rejection event (probability about 2^-250 per challenge)"],
     },
     "C19": {
